@@ -7,7 +7,7 @@ import sys
 
 from .. import ct, dt, refct, refsem, symx
 from ..core import ob
-from ..refsem import T, text, variables, X, Y
+from ..refsem import T, text, variables, rho, X, Y
 
 INFO = {
     'functions': ['all four evaluate()/update() entry points and every visitor below them (as C01-C05)', 'rtamt.syntax.ast.parser.abstract_ast_parser (shared class-level state)',
@@ -196,6 +196,37 @@ def h_isolation(fa, fb, order, N, kind):
     return body
 
 
+def h_isolation_cfg(txt, fa, fb, pa, pb, order, N, mode='offline'):
+    """two objects with the SAME specification text and different per-object configuration (sampling period): what one object
+    computes must not leak into the other through state that lives outside the objects.  Solo runs in the same process would
+    be polluted the same way, so every call is compared with the README semantics of the text under that object's own period
+    (fa / fb: the formula with its bounds in samples)."""
+    fa, fb = T(fa), T(fb)
+
+    def body(env):
+        A = env.A
+        vs = sorted(variables(fa))
+        kind = 'offline~' if mode == 'offline' else 'online'
+        objs = {}
+        res = []
+        cnt = {'a': 0, 'b': 0}
+        got_all = []
+        for c in order:
+            if c not in objs:                                  # an object is built right before its first call
+                objs[c] = dt.make_spec(kind, 'out = ' + txt, vs, period=list(pa if c == 'a' else pb))
+            f = fa if c == 'a' else fb
+            w = dt.trace(env, vs, N, prefix='%s%d_' % (c, cnt[c]))
+            if mode == 'offline':
+                got = [p[1] for p in dt.offline(objs[c], w, N)]
+                want = rho(A, f, w, N)
+                res += dt.eq_list(A, 'cfg-%s%d' % (c, cnt[c]), got, want)
+                got_all.append(got)
+            cnt[c] += 1
+        env.observe('out', got_all)
+        return res
+    return body
+
+
 def h_hashseed(seeds):
     """configuration enumeration, not solver-decided: canonical SMT-LIB rendering of result terms under several hash seeds"""
     def body(env):
@@ -270,5 +301,11 @@ def obligations(tier, rng):
         for order in ['abab', 'baba']:
             out.append(ob('C11', 'isolation', 'iso/ct-offline/%s|%s/%s' % (text(fa), text(fb), order), fa=fa, fb=fb, order=order, N=2, kind='ct-offline',
                           max_paths=20000, wall=600))
+    # same text, different sampling periods: a bound of 2 s is 2 samples for one object and 1 (or 4) for the other
+    for txt, fa, fb, pa, pb in [('once[0:2s](x)', ('once_t', X, 0, 2), ('once_t', X, 0, 1), (1, 's'), (2, 's')),
+                                ('always[0,2](x)', ('always_t', X, 0, 2), ('always_t', X, 0, 4), (1, 's'), (500, 'ms')),
+                                ('(x) since[1000ms:2s] (y)', ('since_t', X, Y, 1, 2), ('since_t', X, Y, 2, 4), (1000, 'ms'), (500, 'ms'))]:
+        for order in ['aba', 'abab', 'baa']:
+            out.append(ob('C11', 'isolation_cfg', 'iso-cfg/dt-offline/%s/%s|%s/%s' % (txt, pa, pb, order), txt=txt, fa=fa, fb=fb, pa=list(pa), pb=list(pb), order=order, N=5))
     out.append(ob('C11', 'hashseed', 'hashseed/%d-seeds' % (3 if quick else 16), seeds=list(range(3 if quick else 16)), validate=0, wall=1200))
     return out
